@@ -3,6 +3,7 @@ package interp
 import (
 	"fmt"
 	"go/types"
+	"sort"
 	"strings"
 
 	"golang.org/x/tools/go/ssa"
@@ -288,10 +289,54 @@ func (m *Machine) argString(fr *frame, a Value, verb byte) Str {
 				if i > 0 {
 					out = append(out, m.ctx.Const(' ', 8))
 				}
-				out = append(out, m.argString(fr, Iface{T: st.Elem(), V: e}, 'v').B...)
+				if ei, isIface := e.(Iface); isIface {
+					out = append(out, m.argString(fr, ei, 'v').B...)
+				} else {
+					out = append(out, m.argString(fr, Iface{T: st.Elem(), V: e}, 'v').B...)
+				}
 			}
 			out = append(out, m.ctx.Const(']', 8))
 			return Str{out}
+		}
+	}
+	// maps print as map[k:v k2:v2] with sorted keys, like fmt does
+	if mp, ok := itf.V.(*MapV); ok {
+		if mp == nil {
+			return m.mkStr("map[]")
+		}
+		type kv struct {
+			k string
+			e *mapEntry
+		}
+		var ents []kv
+		allConcrete := true
+		for _, e := range mp.Entries {
+			ks, isStr := e.K.(Str)
+			cs, conc := "", false
+			if isStr {
+				cs, conc = ks.Concrete()
+			}
+			if !conc {
+				allConcrete = false
+				break
+			}
+			ents = append(ents, kv{cs, e})
+		}
+		if allConcrete {
+			sort.Slice(ents, func(i, j int) bool { return ents[i].k < ents[j].k })
+			out := m.mkStr("map[").B
+			for i, e := range ents {
+				if i > 0 {
+					out = append(out, m.ctx.Const(' ', 8))
+				}
+				out = append(out, m.mkStr(e.k+":").B...)
+				val := e.e.V
+				if _, isIface := val.(Iface); !isIface {
+					val = Iface{T: mp.VT, V: val}
+				}
+				out = append(out, m.argString(fr, val, 'v').B...)
+			}
+			return Str{append(out, m.ctx.Const(']', 8))}
 		}
 	}
 	return m.mkStr(m.DebugString(itf.V))
